@@ -17,7 +17,11 @@ def run(tier, seed):
     run_hex(rep, "H5xSL batch<=1", universe="H5", values=("S", "L"), prune=True, props=P, batch_len=1, exits=("commit", "abort"), state_cap=8000)
     run_hex(rep, "HSxSL direct", universe="HS", values=("S", "L"), prune=True, props=P, state_cap=8000)
     run_hex(rep, "H7xSL direct", universe="H7", values=("S", "L"), prune=True, props=P, state_cap=8000)
+    run_hex(rep, "H3xSL pairs of consecutive events on ONE live object", universe="H3", values=("S", "L"), prune=True, props=P, batch_len=1,
+            exits=("commit", "abort"), pairs=True, state_cap=8000)
     if tier == "thorough":
+        run_hex(rep, "HS4xSL pairs on one live object", universe="HS4", values=("S", "L"), prune=True, props=P, batch_len=1,
+                exits=("commit", "abort"), pairs=True, state_cap=8000)
         run_hex(rep, "H5xST29L batch<=1", universe="H5", values=("S", "T29", "L"), prune=True, props=P, batch_len=1, exits=("commit", "abort"), state_cap=8000)
         run_hex(rep, "H5xSL batch<=2", universe="H5", values=("S", "L"), prune=True, props=P, batch_len=2, exits=("commit", "abort"), state_cap=8000)
         run_hex(rep, "HSxSL batch<=1", universe="HS", values=("S", "L"), prune=True, props=P, batch_len=1, exits=("commit", "abort"), state_cap=8000)
